@@ -213,7 +213,7 @@ class SymInt:
         r = SymInt(T.isub(-1, self.t)); r.inv = self      # remembered so that  x & ~y  can be computed as  x - (x & y)
         return r
     def __bool__(self): return branch(T.bnot(T.ieq(self.t, 0)))
-    def __hash__(self): return hash(concretize_int(self))      # forks over the feasible values (small domains only)
+    def __hash__(self): return hash(concretize_int(self, 1100))      # forks over the feasible values (small domains only)
     def __index__(self): return concretize_int(self)
     def __int__(self): return concretize_int(self)
     def __float__(self): raise Unsupported('float(SymInt)')
